@@ -38,17 +38,20 @@ func (i *Interp) sqlIntrinsic(fn *ssa.Function, name string) intrinsic {
 		}
 		typ, meth := rest[:k], rest[k+2:]
 		switch typ {
-		case "DB", "Conn", "Tx", "Stmt", "Rows", "Row":
+		case "DB", "Conn", "Tx", "Stmt", "Rows", "Row", "ColumnType":
 			model = "SQL_" + typ + "_" + meth
 		default:
 			return nil
 		}
 	case name == "database/sql.OpenDB":
 		model = "SQL_OpenDB"
+	case name == "database/sql.convertAssign":
+		// used by the Null* scanners of the real package
+		return sqlConvertAssign
 	default:
 		return nil
 	}
-	if !ssaIsExported(fn) {
+	if !ssaIsExported(fn) && model != "SQL_OpenDB" {
 		return nil
 	}
 	mf := i.lookupFunc(i.P.ModelPath, model)
